@@ -25,6 +25,19 @@ Definition hinfo (m : N) : minfo :=
      hand-written impl in lib.rs handles Unmock by running the real report *)
   | 8 => {| mi_trait := "Termination"; mi_method := "report"; mi_has_default := false;
             mi_partial_by_default := true; mi_has_unmock_arm := true; mi_out_clone := true |}
+  (* trait D: delegation and unmocking inventory (harness/core/src/inventory.rs) *)
+  | 10 => mk_info "D" "r0" false true true
+  | 11 => mk_info "D" "r1" false false true
+  | 12 => mk_info "D" "u2" false true true        (* unmock_with entry real_u2(b, a) *)
+  | 13 => mk_info "D" "u3" false true true        (* real function recurses through the mock *)
+  | 14 => mk_info "D" "p_ref" true false true
+  | 15 => mk_info "D" "p_mut" true false true
+  | 16 => mk_info "D" "p_val" true false true
+  | 17 => mk_info "D" "p_rc" true false true
+  | 18 => mk_info "D" "p_arc" true false true
+  | 19 => mk_info "D" "p_pin" true false true
+  (* &mut self with an unmock_with entry: the polonius template emits NO unmock arm (finding F1) *)
+  | 20 => mk_info "D" "m_mut" false false true
   | _ => mk_info "?" "?" false false true
   end.
 
@@ -47,7 +60,8 @@ Inductive base_event :=
 | BCount (i : nat)                 (* observe Arc::strong_count *)
 | BCallOwn (i : nat) (m a : N)     (* move the instance into a scope, call, leave the scope *)
 | BArm (n : N)                     (* the next real function (1) / default body (2) panics *)
-| BLive.                           (* observe the numbers of live instrumented values *)
+| BLive                            (* observe the numbers of live instrumented values *)
+| BCallD (i : nat) (m a : N).      (* call of a D-trait method through its receiver kind, with re-entrant user code *)
 
 Record event := { ev_ctx : ctx; ev_base : base_event }.
 
@@ -156,6 +170,69 @@ Definition show_panic (o : option string) : string :=
 Definition kill (w : world) (i : nat) (it : inst) : world :=
   set_insts w (upd (w_insts w) i (set_dead (set_torn it))).
 
+(* ---------- re-entrant user code (C15, C16): default bodies and real functions
+   are programs that call back into the mock; their calls are evaluated on the
+   shared state in program order.  Result: inl text of the returned Val / inr panic text ---------- *)
+Definition d_alias (m : N) : N := if m =? 21 then 17 else if m =? 22 then 18 else m.
+
+Inductive recv := RRef | RMut | RVal | RRcSole | RRcKept | RPin.
+Definition recv_of (m : N) : recv :=
+  match m with
+  | 15 | 20 => RMut | 16 => RVal | 17 | 18 => RRcSole | 21 | 22 => RRcKept | 19 => RPin | _ => RRef
+  end.
+
+(* the required calls the common default body makes for argument a: a mod 4 calls, r0/r1 alternating *)
+Definition body_calls (a : N) : list (N * N) :=
+  map (fun j => ((if Nat.even j then 10 else 11), (a + N.of_nat j) mod 8)) (seq 0 (N.to_nat (a mod 4))).
+
+Fixpoint eval_act (fuel : nat) (cfg : config) (armed : N) (s1 : state) (m a b : N) (act : action)
+  : state * N * (string + string) :=
+  match user_panic armed act with
+  | Some msg => (s1, disarm armed act, inr msg)
+  | None =>
+    match act with
+    | ActReturn (RVTag v) => (s1, armed, inl ("r" ++ dec v))
+    | ActReturn RVDefault => (s1, armed, inl "")
+    | ActAnswer g => (s1, armed, inl ("a" ++ dec g ++ "(" ++ dec a ++ ")"))
+    | ActPanic e => (s1, armed, inr (render_error hinfo e))
+    | ActReal =>
+      if m =? 13 then
+        if a =? 0 then (s1, armed, inl ("base(" ++ dec b ++ ")"))
+        else match fuel with
+             | O => (s1, armed, inr "fuel")
+             | S f =>
+               let '(s2, act2) := call hinfo N haccepts hdebug cfg s1 13 (a - 1) in
+               let '(s3, ar3, r) := eval_act f cfg armed s2 13 (a - 1) b act2 in
+               (s3, ar3, match r with inl t => inl ("rec(" ++ t ++ ")") | inr p => inr p end)
+             end
+      else if m =? 12 then (s1, armed, inl ("real12(" ++ dec b ++ "," ++ dec a ++ ")"))
+      else (s1, armed, inl ("real" ++ dec m ++ "(" ++ dec a ++ ")"))
+    | ActDefault =>
+      if (m =? 2) || (m =? 3) then (s1, armed, inl ("dflt" ++ dec m ++ "(" ++ dec a ++ ")"))
+      else match fuel with
+           | O => (s1, armed, inr "fuel")
+           | S f =>
+             (fix loop (cs : list (N * N)) (st : state) (ar : N) (acc : list string) : state * N * (string + string) :=
+                match cs with
+                | [] => (st, ar, inl ("dflt" ++ dec m ++ "(" ++ dec a ++ ")[" ++ join "," acc ++ "]"))
+                | (mj, aj) :: cs' =>
+                  let '(s2, act2) := call hinfo N haccepts hdebug cfg st mj aj in
+                  let '(s3, ar3, r) := eval_act f cfg ar s2 mj aj (aj + 1) act2 in
+                  match r with
+                  | inl t => loop cs' s3 ar3 (acc ++ [t])%list
+                  | inr p => (s3, ar3, inr p)
+                  end
+                end) (body_calls a) s1 armed []
+           end
+    end
+  end.
+
+Definition show_res (r : string + string) : string :=
+  match r with
+  | inl t => if String.eqb t "" then "rdefault" else t
+  | inr p => "P:" ++ p
+  end.
+
 Definition step (w : world) (e : event) : world * string :=
   let x := ev_ctx e in
   match ev_base e with
@@ -198,6 +275,51 @@ Definition step (w : world) (e : event) : world * string :=
   | BLive =>
     let '(v, u) := live_values (w_cfg w) (w_state w) (strong_count (w_insts w)) in
     (w, "live:" ++ dec v ++ ":" ++ dec u)
+  | BCallD i m0 a =>
+    match live_inst w i with
+    | None => (w, "invalid")
+    | Some it =>
+      let m := d_alias m0 in
+      let rc := recv_of m0 in
+      let '(s1, act) := call hinfo N haccepts hdebug (w_cfg w) (w_state w) m a in
+      let w1 := set_state w s1 in
+      (* Rc/Arc receiver held by its only owner: to_delegator clones the instance and drops the
+         caller's pointer BEFORE the body runs (src/default_impl_delegator.rs) *)
+      let early_drop :=
+        match rc, act with
+        | RRcSole, ActDefault =>
+          drop_panic hinfo (w_bc w1) (w_cfg w1) s1 x it (count_after_release (w_insts w1) it + 1)
+        | _, _ => None
+        end in
+      match early_drop with
+      | Some msg => (kill w1 i it, "P:" ++ msg)
+      | None =>
+        let '(s2, ar2, r) := eval_act 12 (w_cfg w) (w_armed w) s1 m a (a + 1) act in
+        let w2 := set_armed (set_state w1 s2) ar2 in
+        match rc with
+        | RRef | RMut | RPin =>
+          (match act with
+           | ActDefault => set_insts w2 (upd (w_insts w2) i (set_helper it))
+           | _ => w2
+           end, show_res r)
+        | RRcKept => (w2, show_res r)
+        | RVal | RRcSole =>
+          (* the instance is consumed: it is dropped when the call returns (or unwinds) *)
+          match r with
+          | inr _ => (kill w2 i it, show_res r)
+          | inl _ =>
+            match rc, act with
+            | RRcSole, ActDefault => (kill w2 i it, show_res r)     (* already dropped before the body *)
+            | _, _ =>
+              match drop_panic hinfo (w_bc w2) (w_cfg w2) s2 x it (count_after_release (w_insts w2) it) with
+              | None => (kill w2 i it, show_res r)
+              | Some msg => (kill w2 i it, "P:" ++ msg)
+              end
+            end
+          end
+        end
+      end
+    end
   | BClone i =>
     match live_inst w i with
     | None => (w, "invalid")
@@ -314,6 +436,7 @@ Definition count_ (i : N) := BCount (N.to_nat i).
 Definition callown_ (i m a : N) := BCallOwn (N.to_nat i) m a.
 Definition arm_ (n : N) := BArm n.
 Definition live_ := BLive.
+Definition calld_ (i m a : N) := BCallD (N.to_nat i) m a.
 Definition Pt (m d : option N) (ops : list op) : pat_spec :=
   {| ps_matcher := m; ps_dbg := d; ps_ops := ops |}.
 Definition Kase (bc : buildcfg) (partial : bool) (ts : list terminal) (es : list event) : case :=
